@@ -132,6 +132,20 @@ def _filter_one(c):
             sl = np.asarray(make(float(np.asarray(strength).ravel()[kk]))(ones[kk]))
             if not np.array_equal(sl, got[kk]):
               bad(f'slicewise:{c["kind"]}', f'order={order}: slice {kk} of the array-valued filter differs from the scalar filter')
+          # ... and array-valued time scales of the step filters (e.g. a sponge layer): level k is damped with its own tau[k]
+          dt = 0.75
+          tau = dt / np.asarray(strength)                                    # (K, 1, 1): dt / tau = strength
+          x = jnp.asarray(np.random.RandomState(1).randn(K, rows, cols) * mask)
+          full = np.asarray(make_step(dt, tau)(None, x))
+          want = np.asarray(x) * np.exp(-np.asarray(strength) * base ** power)
+          if full.shape != want.shape or not np.all(np.isfinite(full)) or not np.allclose(full, want, rtol=1e-13, atol=1e-300):
+            bad(f'step:array_tau:{c["kind"]}', f'order={order} radius={radius}: step filter with per-level time scales {tau.ravel().tolist()} '
+                f'differs from exp(-(dt/tau[k]) base^p) by {np.abs(full - want).max() if full.shape == want.shape else "shape"}')
+          else:
+            for kk in range(K):
+              sl = np.asarray(make_step(dt, float(tau.ravel()[kk]))(None, x[kk]))
+              if not np.allclose(sl, full[kk], rtol=1e-14, atol=1e-300):
+                bad(f'step:slicewise:{c["kind"]}', f'order={order}: slice {kk} of the step filter with array-valued tau differs from the scalar step filter')
     # ---- which leaves are filtered
     strength = 2.5 if K == 0 else np.array([0.5, 2.0, 4.0]).reshape(K, 1, 1)
     f = (filtering.exponential_filter(grid, strength, 2, cutoff) if c['kind'] == 'exponential'
